@@ -25,6 +25,7 @@ import (
 	"sort"
 	"strings"
 	"testing"
+	"time"
 
 	"github.com/LiskHQ/lisk-engine/pkg/txpool"
 	"pgregory.net/rapid"
@@ -52,6 +53,10 @@ type scaleM struct {
 	peakPool  int
 	peakList  int
 	maxNonce  uint64
+	// collaborator faults and the gossip entry point, drawn per phase: share of the Adds of the phase whose Publish fails, share
+	// that arrives as a gossip announcement (validator + onTransactionAnnoucement) instead of a direct Add
+	faultPct int
+	annPct   int
 }
 
 var unitSize = uint64(buildTx(txSpec{Sender: 1, Nonce: 100, Fee: 100000}).tx.Size())
@@ -117,6 +122,24 @@ func (s *scaleM) begin() {
 	if s.phaseCap < 24 {
 		s.phaseCap = 24
 	}
+	s.faultPct = rapid.SampledFrom([]int{0, 0, 0, 0, 0, 0, 10, 50, 100}).Draw(s.rt, "publishFaultPct")
+	s.annPct = rapid.SampledFrom([]int{0, 0, 0, 0, 0, 30, 100, 100}).Draw(s.rt, "announcePct")
+	if len(s.avoid) > 0 { // known findings present: plain Adds only (the avoidance rules are written for them)
+		s.faultPct, s.annPct = 0, 0
+	}
+	if s.faultPct > 0 || s.annPct > 0 {
+		s.hist = append(s.hist, fmt.Sprintf("-- next phase: Publish fails for %d%% of the Adds, %d%% arrive as gossip announcements", s.faultPct, s.annPct))
+	}
+}
+
+func (s *scaleM) pct(p int, label string) bool {
+	switch {
+	case p <= 0:
+		return false
+	case p >= 100:
+		return true
+	}
+	return rapid.IntRange(0, 99).Draw(s.rt, label) < p
 }
 
 func (s *scaleM) add(r *txRec) {
@@ -127,7 +150,15 @@ func (s *scaleM) add(r *txRec) {
 	s.phaseCap--
 	s.touch(r)
 	s.bulk()
-	s.doAdd(r)
+	fault := s.pct(s.faultPct, "publishFails")
+	if fault {
+		s.classifyFault(r)
+	}
+	if s.pct(s.annPct, "asAnnouncement") {
+		s.doAnnounce(r, fault, "", nil)
+	} else {
+		s.doAddF(r, fault)
+	}
 	if n := r.tx.Nonce; n > s.maxNonce {
 		s.maxNonce = n
 	}
@@ -159,6 +190,77 @@ func (s *scaleM) pass() {
 	s.light = false
 	s.doReorg()
 	s.peaks()
+}
+
+// classifyFault labels the situation of an Add whose Publish is about to fail by the phase it belongs to (inside a bulk phase the
+// last fully evaluated state is out of date, so the phase is the better witness than machine.noteFault).
+func (s *scaleM) classifyFault(r *txRec) {
+	if s.started[r.spec.Sender] {
+		s.sflags["scale:fault:publish:known-sender"] = true
+	} else {
+		s.sflags["scale:fault:publish:first-tx-of-sender"] = true
+	}
+	if len(s.prev.raw.All)+s.dirty.bulkAdds >= s.cfg.Max {
+		s.sflags["scale:fault:publish:pool-full-or-nearly"] = true
+	}
+}
+
+// phaseAnnounceBurst: many announcements in ONE watched call (what a gossip round delivers): next nonces of many senders or first
+// transactions of fresh accounts; the subscribers are still busy with one event when the next is published.
+func (s *scaleM) phaseAnnounceBurst() {
+	t := s.rt
+	s.begin()
+	if len(s.avoid) > 0 {
+		return
+	}
+	who := s.pickSenders("annBurst")
+	k := rapid.SampledFrom([]int{8, 33, 16, 65, 4, 40, 100}).Draw(t, "annBurstSize")
+	if k > len(who) {
+		k = len(who)
+	}
+	if k > s.phaseCap {
+		k = s.phaseCap
+	}
+	fm := s.drawFeeMode("annBurstFee")
+	var rs []*txRec
+	var fl []bool
+	for _, sd := range who[:k] {
+		n := s.next[sd]
+		if !s.started[sd] {
+			n = s.base[sd]
+		}
+		r := s.fresh(sd, n, s.drawFee(fm))
+		rs = append(rs, r)
+		fl = append(fl, s.pct(s.faultPct, "publishFails"))
+		s.touch(r)
+		s.next[sd], s.started[sd] = n+1, true
+		if n > s.maxNonce {
+			s.maxNonce = n
+		}
+	}
+	if len(rs) == 0 {
+		return
+	}
+	s.budget -= len(rs)
+	s.light = false
+	s.hist = append(s.hist, fmt.Sprintf("-- announcement burst: %d transactions in one call, fees %s", len(rs), feeModeNames[fm]))
+	s.sflags["scale:announce-burst:"+countClass(len(rs))] = true
+	s.doBurst(rs, fl)
+	s.peaks()
+}
+
+// phaseRPC: a peer asks for the processable transactions (the handler caps its answer at 100).
+func (s *scaleM) phaseRPC() {
+	s.sync()
+	s.budget--
+	n := 0
+	for _, l := range s.prev.listOf {
+		n += len(l.Processables)
+	}
+	if n > 100 {
+		s.sflags["scale:rpc:>100-processable"] = true
+	}
+	s.doRPC("no-body", nil)
 }
 
 // fresh builds a transaction with a new ID for (sender, nonce).
@@ -918,6 +1020,7 @@ func sizeClass(n int, exact []int, bounds []int) string {
 
 func (s *scaleM) registerScale(kind string) {
 	s.endPhase()
+	s.finish()
 	fl := map[string]bool{}
 	for f := range s.flags {
 		fl[f] = true
@@ -974,6 +1077,7 @@ func TestPoolScale(t *testing.T) {
 	rapid.Check(t, func(t *rapid.T) {
 		c, nS := drawScaleCfg(t)
 		s := newScaleM(t, c, nS, avoid)
+		s.subscribe(drawSubs(t, scaleSubCounts, scaleSubDelays))
 		s.budget = rapid.SampledFrom([]int{maxBudget, maxBudget / 2, 3 * maxBudget / 4, maxBudget / 4, 60}).Draw(t, "poolCalls")
 		s.lightFrom = rapid.SampledFrom([]int{0, 24, 24, 64}).Draw(t, "lightFrom")
 		s.syncEvery = rapid.SampledFrom([]int{8, 48}).Draw(t, "syncEvery")
@@ -991,7 +1095,8 @@ func TestPoolScale(t *testing.T) {
 		}
 		s.hist = append(s.hist, fmt.Sprintf("senders=%d budget=%d lightFrom=%d syncEvery=%d base=%v", nS, s.budget, s.lightFrom, s.syncEvery, s.base))
 		phases := []func(){s.phasePass, s.phaseBurst, s.phaseBlock, s.phasePass, s.phaseFill, s.phasePass, s.phaseBurst, s.phaseReplace, s.phasePass,
-			s.phaseRevert, s.phaseLowNonce, s.phaseBlock, s.phasePass, s.phaseFill, s.phaseRemove, s.phaseKnown, s.phasePass}
+			s.phaseRevert, s.phaseLowNonce, s.phaseBlock, s.phasePass, s.phaseFill, s.phaseRemove, s.phaseKnown, s.phasePass,
+			s.phaseAnnounceBurst, s.phaseRPC, s.phaseAnnounceBurst}
 		// every history starts by pooling something for many senders, usually followed by a promotion pass
 		if rapid.IntRange(0, 3).Draw(t, "firstPhase") == 3 {
 			s.phaseBurst()
@@ -1008,9 +1113,15 @@ func TestPoolScale(t *testing.T) {
 		if s.passes == 0 && !s.stopped { // no history without a promotion pass
 			s.phasePass()
 		}
+		s.machine.t = t
 		s.registerScale("scale-history")
 	})
 }
+
+var (
+	scaleSubCounts = []int{0, 0, 0, 0, 0, 1, 1, 2, 3}
+	scaleSubDelays = []time.Duration{0, 0, 0, 0, 0, 0, 0, 0, 0, 0, 100 * time.Microsecond, 300 * time.Microsecond}
+)
 
 // TestRegressManyInvalidSendersInOnePass: 48 senders with two pooled transactions each, the verifier turns to "invalid" for all of
 // them (a block spent the balances), one promotion pass. The pass and every later call must return, the indexes must agree.
